@@ -69,7 +69,8 @@ End RI.
 
 Definition is_ret (i : instr) : bool := match i with IRet _ | IRetX _ => true | _ => false end.
 Definition norets (k : list instr) : bool := forallb (fun i => negb (is_ret i)) k.
-Definition barrier (i : instr) : bool := match i with ICall _ | DTurns | DSnap => true | _ => false end.
+Definition barrier (i : instr) : bool :=
+  match i with ICall _ | DTurns | DSnap | DCheck | DExitI | DGet | DTaskDone => true | _ => false end.
 (* no Return is pending behind a not yet started callback call / the dispatch loop *)
 Fixpoint rets_first (k : list instr) : bool :=
   match k with
